@@ -935,7 +935,133 @@ impl ReqFamily for Docs {
     }
 }
 
+
+/// Every variable-length number of the request at every size-class boundary of BOTH variable-length formats
+/// (signed: 2^5, 2^13, 2^29; unsigned: 2^6, 2^14, 2^30), one below, at, and one above.
+pub struct SizeClasses;
+const BOUNDARY_TAGS: [i128; 25] = [
+    0, 1, 31, 32, 33, 63, 64, 65, 255, 256, 8191, 8192, 8193, 16383, 16384, 16385, (1 << 29) - 1, 1 << 29, (1 << 29) + 1, (1 << 30) - 1, 1 << 30, (1 << 30) + 1, (1 << 31) - 3, (1 << 31) - 2, (1 << 31) - 1,
+];
+fn boundary_values(lo: i128, hi: i128) -> Vec<i128> {
+    let mut v = vec![0i128];
+    for k in [5u32, 6, 7, 8, 13, 14, 15, 16, 29, 30, 31, 32, 61, 62, 63, 64] {
+        for d in [-1i128, 0, 1] {
+            for sign in [1i128, -1] {
+                let x = sign * ((1i128 << k) + d);
+                if x >= lo && x <= hi && !v.contains(&x) {
+                    v.push(x);
+                }
+            }
+        }
+    }
+    v
+}
+impl ReqFamily for SizeClasses {
+    fn name(&self) -> String {
+        "size-class-boundaries/tags (fields, parameters, return members, enumerator fields) and enumerator values (6 underlying types) one below, at and one above every size-class boundary of the signed and the unsigned variable-length formats; identifiers, string arguments, comment lines and member counts of 63 / 64 / 65 and 16383 / 16384".into()
+    }
+    fn len(&self) -> u64 {
+        3 + 6 + 4
+    }
+    fn get(&self, idx: u64) -> ReqCase {
+        let i32o = || MType::prim("int32").opt();
+        let mut f = MFile::module("M");
+        let label;
+        match idx {
+            0 => {
+                f.defs.push(st("S", BOUNDARY_TAGS.iter().enumerate().map(|(i, t)| MField::tagged(&format!("f{i}"), *t, i32o())).collect()));
+                label = "struct fields tagged with every boundary value".to_string();
+            }
+            1 => {
+                let mut ops = vec![];
+                for (k, chunk) in BOUNDARY_TAGS.chunks(5).enumerate() {
+                    let params: Vec<MParam> = chunk
+                        .iter()
+                        .enumerate()
+                        .map(|(i, t)| {
+                            let mut p = MParam::new(&format!("p{i}"), i32o());
+                            p.tag = Some(MInt::dec(*t));
+                            p
+                        })
+                        .collect();
+                    let rets: Vec<MParam> = chunk
+                        .iter()
+                        .enumerate()
+                        .map(|(i, t)| {
+                            let mut p = MParam::new(&format!("r{i}"), i32o());
+                            p.tag = Some(MInt::dec(*t));
+                            p
+                        })
+                        .collect();
+                    ops.push(op(&format!("op{k}"), params, MRet::Tuple(rets)));
+                    ops.push(op(&format!("single{k}"), vec![], MRet::Single { tag: Some(MInt::dec(chunk[1])), stream: false, ty: i32o() }));
+                }
+                f.defs.push(iface("I", vec![], ops));
+                label = "parameters and return members tagged with every boundary value".to_string();
+            }
+            2 => {
+                let es: Vec<MEnumerator> = BOUNDARY_TAGS
+                    .chunks(5)
+                    .enumerate()
+                    .map(|(k, chunk)| MEnumerator { c: MCommon::new(&format!("V{k}")), fields: Some(chunk.iter().enumerate().map(|(i, t)| MField::tagged(&format!("f{i}"), *t, i32o())).collect()), value: None })
+                    .collect();
+                f.defs.push(en("V", None, es));
+                label = "enumerator fields tagged with every boundary value".to_string();
+            }
+            3..=8 => {
+                let p = ["int32", "int64", "uint64", "varint62", "varuint62", "uint16"][(idx - 3) as usize];
+                let (lo, hi) = prim_bounds(p).unwrap();
+                let mut vals = boundary_values(lo, hi);
+                vals.sort();
+                let es: Vec<MEnumerator> = vals.iter().enumerate().map(|(i, v)| enumerator_v(&format!("E{i}"), MInt::spelled(*v, &v.to_string()))).collect();
+                let mut d = en("E", Some(MType::prim(p)), es);
+                if let MDef::Enum(e) = &mut d {
+                    e.unchecked = idx % 2 == 0;
+                }
+                f.defs.push(d);
+                // without an underlying type: discriminants within 0..2^31-1
+                let vs = boundary_values(0, (1 << 31) - 1);
+                f.defs.push(en("D", None, vs.iter().enumerate().map(|(i, v)| MEnumerator { c: MCommon::new(&format!("D{i}")), fields: Some(vec![]), value: Some(MInt::dec(*v)) }).collect()));
+                label = format!("enumerator values at every boundary within {p}; discriminants at every boundary");
+            }
+            9 => {
+                for n in [1usize, 62, 63, 64, 65, 255, 256, 16383, 16384] {
+                    let name = format!("N{}", "x".repeat(n - 1));
+                    f.defs.push(st(&name, vec![MField::new(&"f".repeat(n), MType::prim("bool"))]));
+                }
+                label = "identifiers of 63 / 64 / 65 / 16383 / 16384 bytes".to_string();
+            }
+            10 => {
+                for (i, n) in [0usize, 1, 62, 63, 64, 65, 16383, 16384].iter().enumerate() {
+                    let mut d = st(&format!("A{i}"), vec![]);
+                    *d.common_mut() = d.common().clone().attr(MAttr::with("cs::text", vec![MArg::Str("é".repeat(n / 2) + &"a".repeat(n % 2))])).attr(MAttr::with("cs::list", (0..*n.min(&70)).map(|k| MArg::Ident(format!("a{k}"))).collect()));
+                    f.defs.push(d);
+                }
+                label = "string arguments of 63 / 64 / 65 / 16383 / 16384 bytes; argument lists of 0..70 entries".to_string();
+            }
+            11 => {
+                for (i, n) in [1usize, 62, 63, 64, 65, 16382, 16383, 16384].iter().enumerate() {
+                    let line = format!(" {}", "d".repeat(*n));
+                    let mut d = st(&format!("C{i}"), vec![]);
+                    *d.common_mut() = d.common().clone().doc(&[line.as_str(), " @see Lib::HS"]);
+                    f.defs.push(d);
+                }
+                label = "comment lines of 63 / 64 / 65 / 16383 / 16384 bytes".to_string();
+            }
+            _ => {
+                for n in [62usize, 63, 64, 65, 130] {
+                    f.defs.push(st(&format!("M{n}"), (0..n).map(|i| MField::new(&format!("f{i}"), MType::prim("uint8"))).collect()));
+                    f.defs.push(en(&format!("E{n}"), Some(MType::prim("uint8")), (0..n).map(|i| enumerator(&format!("e{i}"))).collect()));
+                }
+                f.defs.push(iface("Ops", vec![], (0..65).map(|i| op(&format!("o{i}"), (0..(i % 3)).map(|k| MParam::new(&format!("p{k}"), MType::prim("bool"))).collect(), MRet::None)).collect()));
+                label = "structs / enums of 62..65 and 130 members, an interface of 65 operations".to_string();
+            }
+        }
+        ReqCase { program: vec![f, gen::lib_file()], files: vec![("main.slice".into(), true, 0), ("lib.slice".into(), false, 1)], args: vec![], label }
+    }
+}
+
 pub fn families(tier: &str) -> Vec<Box<dyn Family>> {
-    let v: Vec<Box<dyn ReqFamily>> = vec![Box::new(Docs), Box::new(Packed), Box::new(Singles), Box::new(PairsFam { all_splits: tier != "quick" })];
+    let v: Vec<Box<dyn ReqFamily>> = vec![Box::new(Docs), Box::new(SizeClasses), Box::new(Packed), Box::new(Singles), Box::new(PairsFam { all_splits: tier != "quick" })];
     v.into_iter().map(|f| Box::new(ReqCheck { inner: f }) as Box<dyn Family>).collect()
 }
